@@ -45,6 +45,12 @@ pub fn seed_points(thorough: bool) -> Vec<(&'static str, Point)> {
     h.d[12] = idx(&family::FOLDS, 16);
     h.d[13] = idx(&family::REMS, 0);
     v.push(("folding 16, one FRI layer of 4 rows", h));
+    // (q) quadratic extension: items of the extension-field components are wider than a base-field element
+    let mut q = a;
+    q.d[11] = 1;
+    q.d[12] = 1; // folding 4
+    q.d[8] = 0; // 3 queries
+    v.push(("quadratic extension, folding 4", q));
     if thorough {
         let mut i8 = family::base_point();
         i8.d[12] = idx(&family::FOLDS, 8);
@@ -55,7 +61,7 @@ pub fn seed_points(thorough: bool) -> Vec<(&'static str, Point)> {
         let mut e = a;
         e.d[11] = 1; // quadratic extension
         e.d[12] = 1; // folding 4
-        v.push(("quadratic extension, folding 4", e));
+        v.push(("quadratic extension, folding 4, 27 queries", e));
         let mut f = c;
         f.d[11] = 2; // cubic
         v.push(("auxiliary segment, cubic extension", f));
